@@ -184,6 +184,11 @@ def rows_key(rows):
     return sorted(tuple(r) for r in rows)
 
 
+def concurrent_map(n):
+    import concurrent.futures
+    return concurrent.futures.ThreadPoolExecutor(max_workers=n)
+
+
 def run(ck):
     # ---------------------------------------------------------------- 1. translator
     rc, out = vlib.sh([sys.executable, os.path.join(vlib.VERIF, "translator/gen_rules.py"), vlib.REPO])
@@ -472,6 +477,59 @@ def run(ck):
             ck.report(r["sig"], "rule %s rewrites %s into %s (one e-class in egg) but the two plans return different rows: %s vs %s" % (
                 w["rule"], w["lhs"], w["rhs"], rows_key(l["rows"]), rows_key(rr["rows"])),
                 replay={"rule": w["rule"], "witness": w, "lhs_rows": l["rows"], "rhs_rows": rr["rows"], "requests": [wreqs[[q["id"] for q in wreqs].index(wid)]]})
+
+    # (B4) every executable plan rule on concrete instances of its left-hand side: egg saturates with
+    # exactly that rule, one plan per e-node of the root class is run; all must return the rows of the
+    # left-hand side (c01_ruleinst.py)
+    import c01_ruleinst as RI
+    ireqs, imeta, inoinst = [], {}, {}
+    for r in plan_rules:
+        try:
+            ins = RI.instances(r)
+        except RI.NoInst as e:
+            inoinst[r["name"]] = str(e)
+            continue
+        for k, (text, env) in enumerate(ins):
+            rid = "ri:%s#%d" % (r["name"], k)
+            ireqs.append({"id": rid, "engine": "mem", "setup": RI.SETUP, "queries": [{"plan": text, "alts": {"rules": [r["name"]], "iters": 2}}]})
+            imeta[rid] = (r, text, env)
+    ires = {}
+    if ireqs:
+        nch = 8
+        with concurrent_map(nch) as ex:
+            for part in ex.map(lambda jc: run_harness(ck, jc[1], "ri%d" % jc[0], stages), enumerate([ireqs[j::nch] for j in range(nch)])):
+                ires.update(part)
+    istats = {"instances": len(ireqs), "lhs_not_executable": 0, "rule_did_not_fire": 0, "alternatives_run": 0, "rules_with_a_rewritten_instance": 0,
+              "not_instantiated": inoinst}
+    fired = set()
+    for rid, (r, text, env) in imeta.items():
+        a = ires.get(rid)
+        if not a or not a["setup_ok"] or not a["results"]:
+            ck.report("corr:rule-instances", "harness gave no answer for a rule instance (%s)" % rid, replay={"id": rid, "plan": text}, found_input=False)
+            continue
+        res0 = a["results"][0]
+        if res0["class"] != "ok":
+            istats["lhs_not_executable"] += 1       # the instantiator built an ill-formed left-hand side: not an instance
+            continue
+        alts = res0.get("alts", [])
+        if len(alts) < 2:
+            istats["rule_did_not_fire"] += 1
+            continue
+        fired.add(r["name"])
+        ref = rows_key(res0["rows"])
+        for alt in alts:
+            istats["alternatives_run"] += 1
+            if alt["class"] != "ok" or rows_key(alt["rows"]) != ref:
+                ck.report(r["sig"], "rule %s rewrites %s into %s, which %s, while the left-hand side returns %s" % (
+                    r["name"], text, alt["plan"], ("returns %s" % rows_key(alt["rows"])) if alt["class"] == "ok" else ("fails: %s %s" % (alt["class"], alt.get("msg", "")[:100])), ref),
+                    replay={"rule": r["name"], "instance": env, "lhs": text, "lhs_rows": res0["rows"], "alternative": alt,
+                            "requests": [q for q in ireqs if q["id"] == rid]})
+                break
+    istats["rules_with_a_rewritten_instance"] = len(fired)
+    istats["rules_instantiated_but_never_rewritten"] = sorted({r["name"] for r, _, _ in imeta.values()} - fired)
+    ck.coverage["rule_instances"] = istats
+    ck.log("rule instances: %d (%d ill-formed, %d not rewritten), %d alternatives run, %d rules rewritten at least once, %d rules not instantiated" % (
+        istats["instances"], istats["lhs_not_executable"], istats["rule_did_not_fire"], istats["alternatives_run"], len(fired), len(inoinst)))
 
     # (C) whole optimizer: on vs off vs custom(exclude known-unsound rules)
     nq = 120 if ck.quick() else 2500
